@@ -96,13 +96,17 @@ func runC12(e *Env) error {
 			// the importing template has macros of its own under the same names: the module's macro is the library's
 			"import-namesake":     "{% macro " + mn + "() %}LOCAL{% endmacro %}{% macro sib(x) %}LOCALSIB{% endmacro %}{% import 'lib' as L %}" + wrap(call("L."+mn)) + after,
 			"from-other-namesake": "{% from 'lib2' import " + mn + " %}{% import 'lib' as L %}" + wrap(call("L."+mn)) + after,
+			// the library is reached through another library that re-exports it
+			"reexport-from":   "{% from 'libR' import " + mn + " %}" + wrap(call(mn)) + after,
+			"reexport-import": "{% import 'libR' as R %}" + wrap(call("R."+mn)) + after,
+			"reexport-alias":  "{% from 'libR' import " + mn + " as viaR %}" + wrap(call("viaR")) + after,
 		}
 		if placement == 3 {
 			// inside another macro the module variable L is not visible by name lookup? it is: macros read the caller's variables
 		}
 		wantAll := want.String() + "|clean|G"
-		for _, route := range []string{"local", "self", "import", "from", "from-alias", "import-namesake", "from-other-namesake"} {
-			tpls := map[string]string{"main": routes[route], "lib": lib, "lib2": "{% macro " + mn + "() %}OTHERLIB{% endmacro %}"}
+		for _, route := range []string{"local", "self", "import", "from", "from-alias", "import-namesake", "from-other-namesake", "reexport-from", "reexport-import", "reexport-alias"} {
+			tpls := map[string]string{"main": routes[route], "lib": lib, "lib2": "{% macro " + mn + "() %}OTHERLIB{% endmacro %}", "libR": "{% from 'lib' import " + mn + ", sib %}{% macro own() %}own{% endmacro %}"}
 			c := &Case{Templates: tpls, Main: "main", Ctx: map[string]any{"g": "G", "p": "OUTER-p", "q": "OUTER-q", "r": "OUTER-r", "s": "OUTER-s"}, FailAt: -1}
 			im, _, _, err := compareCase(e, c, "render-model-c12", "correspondence (Lean pipeline vs real engine) on macro programs")
 			if err != nil {
@@ -110,6 +114,32 @@ func runC12(e *Env) error {
 			}
 			r.Seen(fmt.Sprintf("%s/%d/%d/%d/%d/%s/%v", mn, arity, defMask, argc, placement, route, args), arity >= 1)
 			r.Hit("route:" + route)
+			if route == "local" || route == "import" || route == "from" {
+				// the same engine rendered again with other caller data: defaults and arguments that read the caller's
+				// variables are evaluated at each call
+				c2 := *c
+				c2.Ctx = map[string]any{"g": "H", "p": "OUTER-p", "q": "OUTER-q", "r": "OUTER-r", "s": "OUTER-s"}
+				ref := runImpl(&c2)
+				res := guarded(func() (string, error) {
+					eng, err := newEngine(tpls)
+					if err != nil {
+						return "", err
+					}
+					for k := 0; k < 2; k++ {
+						if _, err := eng.Render("main", map[string]interface{}{"g": "G", "p": "OUTER-p", "q": "OUTER-q", "r": "OUTER-r", "s": "OUTER-s"}); err != nil {
+							return "", err
+						}
+					}
+					return eng.Render("main", map[string]interface{}{"g": "H", "p": "OUTER-p", "q": "OUTER-q", "r": "OUTER-r", "s": "OUTER-s"})
+				})
+				if mapClass(res.Class) != ref.Class || res.Out != ref.Out {
+					if r.Violate(Violation{Key: "macro-binding-or-route", What: fmt.Sprintf("macro %s(%s) via %s: rendered with g = G twice and then with g = H the engine gives %q (%s), a fresh engine gives %q (%s)", mn, strings.Join(sig, ", "), route, truncate(res.Out, 120), res.Class, truncate(ref.Out, 120), ref.Class),
+						Broken: "theorem C12_binding (defaults are evaluated at every call; implementation-only oracle: re-render with other caller data)",
+						Replay: map[string]any{"kind": "render", "templates": tpls, "main": "main", "ctx": map[string]any{"g": "H"}, "want": ref.Out, "got": res.Out}}) {
+						return nil
+					}
+				}
+			}
 			if im.Class != "" || im.Out != wantAll {
 				if r.Violate(Violation{Key: "macro-binding-or-route", What: fmt.Sprintf("macro %s(%s) called with %d args via %s (placement %d): got %q (%s), expected %q", mn, strings.Join(sig, ", "), argc, route, placement, truncate(im.Out, 160), im.Class, wantAll),
 					Broken: "theorem C12_binding / C12_routes_agree / C12_shadow_and_isolation no longer describes the code (implementation-only oracle: independent binding spec, route agreement)",
